@@ -39,6 +39,8 @@ def run_property(pid, tier, seed, only_key=None):
         ledger = core.Ledger(pid)
         from sa.rules import shared_py
         shared_py.init_globals(ctx.py)
+        from sa import reviewed
+        ledger.reviewed = reviewed.Reviewed(ctx.py)
         rules_run = mod.run(ctx, ledger, tier)
         ledger.analysed.update(ctx.inventory())
         if only_key is not None:
